@@ -448,4 +448,278 @@ theorem WF_journal (h8 : 8 ≤ B) : ∀ (rs : List Record) (off : Nat), off < B 
     intro off hoff
     exact WF_append B _ off _ (WF_recSegs B h8 off hoff r) (ih _ (segsEnd_lt B (by omega) _ off hoff))
 
+/-! ### counting the records inside a byte prefix -/
+
+theorem wholeRecs_all : ∀ (rs : List Record) (off n : Nat), segsSize (journalSegs B off rs) ≤ n →
+    wholeRecs B off rs n = rs.length := by
+  intro rs
+  induction rs with
+  | nil => intro off n _; rfl
+  | cons r rs ih =>
+    intro off n h
+    simp only [journalSegs, segsSize_append] at h
+    simp only [wholeRecs]
+    rw [if_pos (by omega), ih _ _ (by omega), List.length_cons, Nat.add_comm]
+
+theorem wholeRecs_le_length : ∀ (rs : List Record) (off n : Nat), wholeRecs B off rs n ≤ rs.length := by
+  intro rs
+  induction rs with
+  | nil => intro off n; simp [wholeRecs]
+  | cons r rs ih =>
+    intro off n
+    simp only [wholeRecs]
+    split
+    · have := ih (segsEnd B off (recSegs B off r)) (n - segsSize (recSegs B off r))
+      simp only [List.length_cons]; omega
+    · omega
+
+theorem journalSegs_append : ∀ (r1 : List Record) (off : Nat) (r2 : List Record),
+    journalSegs B off (r1 ++ r2)
+      = journalSegs B off r1 ++ journalSegs B (segsEnd B off (journalSegs B off r1)) r2 := by
+  intro r1
+  induction r1 with
+  | nil => intro off r2; rfl
+  | cons r rs ih =>
+    intro off r2
+    have hend : ∀ (s1 s2 : List Seg) (o : Nat), segsEnd B o (s1 ++ s2) = segsEnd B (segsEnd B o s1) s2 := by
+      intro s1
+      induction s1 with
+      | nil => intro s2 o; rfl
+      | cons s t iht => intro s2 o; exact iht s2 _
+    simp only [List.cons_append, journalSegs, ih, List.append_assoc, hend]
+
+/-- the records of a journal prefix `r1` that lies inside the first `n` bytes all count -/
+theorem wholeRecs_append : ∀ (r1 : List Record) (off : Nat) (r2 : List Record) (n : Nat),
+    segsSize (journalSegs B off r1) ≤ n →
+    wholeRecs B off (r1 ++ r2) n
+      = r1.length + wholeRecs B (segsEnd B off (journalSegs B off r1)) r2 (n - segsSize (journalSegs B off r1)) := by
+  intro r1
+  induction r1 with
+  | nil => intro off r2 n _; simp [journalSegs, segsSize, segsEnd]
+  | cons r rs ih =>
+    intro off r2 n h
+    have hend : ∀ (s1 s2 : List Seg) (o : Nat), segsEnd B o (s1 ++ s2) = segsEnd B (segsEnd B o s1) s2 := by
+      intro s1
+      induction s1 with
+      | nil => intro s2 o; rfl
+      | cons s t iht => intro s2 o; exact iht s2 _
+    simp only [journalSegs, segsSize_append] at h
+    simp only [List.cons_append, wholeRecs, journalSegs, segsSize_append, hend]
+    rw [if_pos (by omega), ih _ _ _ (by omega), List.length_cons, Nat.sub_sub]
+    omega
+
+/-- `wholeRecs` is the number of records whose encoding ends at or before byte `n` -/
+theorem wholeRecs_eq_count : ∀ (rs : List Record) (off n : Nat),
+    wholeRecs B off rs n
+      = ((List.range rs.length).filter
+          (fun i => decide (segsSize (journalSegs B off (rs.take (i + 1))) ≤ n))).length := by
+  intro rs
+  induction rs with
+  | nil => intro off n; simp [wholeRecs]
+  | cons r rs ih =>
+    intro off n
+    simp only [wholeRecs, List.length_cons, List.range_succ_eq_map, List.filter_cons, List.take_succ_cons,
+      journalSegs, segsSize_append, List.filter_map]
+    by_cases h : segsSize (recSegs B off r) ≤ n
+    · have h0 : decide (segsSize (recSegs B off r) + segsSize (journalSegs B (segsEnd B off (recSegs B off r))
+          (List.take 0 rs)) ≤ n) = true := by simp [journalSegs, segsSize, h]
+      rw [if_pos h, if_pos h0, List.length_cons, List.length_map, ih, Nat.add_comm]
+      congr 2
+      apply List.filter_congr
+      intro i _
+      simp only [Function.comp, Nat.succ_eq_add_one]
+      apply decide_eq_decide.mpr
+      omega
+    · have h0 : ¬ decide (segsSize (recSegs B off r) + segsSize (journalSegs B (segsEnd B off (recSegs B off r))
+          (List.take 0 rs)) ≤ n) = true := by simp [journalSegs, segsSize, h]
+      rw [if_neg h, if_neg h0, List.length_map]
+      symm
+      rw [List.length_eq_zero_iff, List.filter_eq_nil_iff]
+      intro i _
+      simp only [Function.comp, decide_eq_true_eq]
+      omega
+
+theorem completeAt_eq (rs : List Record) (n : Nat) : completeAt B rs n = wholeRecs B 0 rs n := by
+  rw [wholeRecs_eq_count]; rfl
+
+theorem encSegs_append (s1 s2 : List Seg) : encSegs crc (s1 ++ s2) = encSegs crc s1 ++ encSegs crc s2 := by
+  induction s1 with
+  | nil => rfl
+  | cons s t ih => simp [encSegs, ih]
+
+/-! ### a torn journal followed by zeros -/
+
+/-- a header whose type byte is not 1..4 (in particular a zero header) drops the rest of the block -/
+theorem parse_bad_ty (avail : Nat) (rest : Bytes) (h7 : 7 ≤ avail) (ty : UInt8) (h : rest[6]? = some ty)
+    (hty : validTy ty = false) : parse crc avail rest = .bad := by
+  have hn : ¬ avail < 7 := by omega
+  match rest, h with
+  | [], h => simp at h
+  | [_], h => simp at h
+  | [_, _], h => simp at h
+  | [_, _, _], h => simp at h
+  | [_, _, _, _], h => simp at h
+  | [_, _, _, _, _], h => simp at h
+  | [_, _, _, _, _, _], h => simp at h
+  | c0 :: c1 :: c2 :: c3 :: l0 :: l1 :: t :: body, h =>
+    simp at h
+    subst h
+    simp [parse, hn, hty]
+
+/-- zeros never form a chunk -/
+theorem readAux_zeros : ∀ (f off m : Nat) (acc : Option Record),
+    readAux B crc f off (List.replicate m 0) acc = [] := by
+  intro f
+  induction f with
+  | zero => intro off m acc; rfl
+  | succ f ih =>
+    intro off m acc
+    by_cases hav : min (B - off) (List.replicate m (0 : UInt8)).length < 7
+    · rw [readAux_short B crc f off _ acc (parse_short crc _ _ hav), List.drop_replicate]
+      split
+      · rfl
+      · exact ih _ _ _
+    · have hm : 6 < m := by simp only [List.length_replicate] at hav; omega
+      have hpar : parse crc (min (B - off) (List.replicate m (0 : UInt8)).length) (List.replicate m 0) = .bad :=
+        parse_bad_ty crc _ _ (by omega) 0 (by rw [List.getElem?_replicate, if_pos hm]) rfl
+      rw [readAux_bad B crc f off _ acc hpar, List.drop_replicate]
+      exact ih _ _ _
+
+theorem readAux_drop_zeros (f a z : Nat) (l : Bytes) (h : l.length ≤ a) :
+    readAux B crc f 0 (List.drop a (l ++ List.replicate z 0)) none = [] := by
+  rw [List.drop_append, List.drop_of_length_le h, List.nil_append, List.drop_replicate]
+  exact readAux_zeros B crc _ _ _ _
+
+/-- a chunk cut at byte `n` and continued by zeros delivers nothing, nor does anything after it -/
+theorem readAux_torn_chunk_zeros (hB : B ≤ 65542) (f off n z : Nat) (acc : Option Record) (c : Chunk)
+    (hfit : off + 7 + c.payload.length ≤ B) (hty : validTy c.ty = true) (hn : n < 7 + c.payload.length)
+    (hdet : 7 ≤ n → crc (c.ty :: c.payload) ≠
+      crc (c.ty :: (c.payload.take (n - 7) ++ List.replicate (c.payload.length - (n - 7)) 0))) :
+    readAux B crc (f + 1) off (List.take n (encChunk crc c.ty c.payload) ++ List.replicate z 0) acc = [] := by
+  have hp : c.payload.length < 65536 := by omega
+  have hlen : (List.take n (encChunk crc c.ty c.payload)).length = n := by
+    rw [List.length_take, length_encChunk]; omega
+  have hDlen : (List.take n (encChunk crc c.ty c.payload) ++ List.replicate z (0 : UInt8)).length = n + z := by
+    rw [List.length_append, hlen, List.length_replicate]
+  by_cases hav : min (B - off) (List.take n (encChunk crc c.ty c.payload) ++ List.replicate z (0 : UInt8)).length < 7
+  · rw [readAux_short B crc f off _ acc (parse_short crc _ _ hav), if_pos (by rw [hDlen] at hav ⊢; omega)]
+  · rw [hDlen] at hav
+    by_cases h7 : n < 7
+    · have hpar : parse crc (min (B - off) (List.take n (encChunk crc c.ty c.payload)
+          ++ List.replicate z (0 : UInt8)).length)
+          (List.take n (encChunk crc c.ty c.payload) ++ List.replicate z 0) = .bad := by
+        refine parse_bad_ty crc _ _ (by rw [hDlen]; omega) 0 ?_ rfl
+        rw [List.getElem?_append_right (by rw [hlen]; omega), List.getElem?_replicate, if_pos (by rw [hlen]; omega)]
+      rw [readAux_bad B crc f off _ acc hpar]
+      exact readAux_drop_zeros B crc _ _ _ _ (by rw [hlen, hDlen]; omega)
+    · obtain ⟨m, rfl⟩ : ∃ m, n = m + 7 := ⟨n - 7, by omega⟩
+      have hl : rd16 (UInt8.ofNat c.payload.length) (UInt8.ofNat (c.payload.length / 256)) = c.payload.length :=
+        rd16_le16 _ hp
+      have hpar : parse crc (min (B - off) (List.take (m + 7) (encChunk crc c.ty c.payload)
+          ++ List.replicate z (0 : UInt8)).length)
+          (List.take (m + 7) (encChunk crc c.ty c.payload) ++ List.replicate z 0) = .bad := by
+        rw [hDlen]
+        have hn7 : ¬ min (B - off) (m + 7 + z) < 7 := by omega
+        simp only [parse, hn7, if_false, encChunk, List.take_succ_cons, List.cons_append, hty, hl, rd32_le32]
+        by_cases hov : min (B - off) (m + 7 + z) < 7 + c.payload.length
+        · simp [hov]
+        · have htake : List.take c.payload.length (List.take m c.payload ++ List.replicate z (0 : UInt8))
+              = List.take m c.payload ++ List.replicate (c.payload.length - m) 0 := by
+            rw [List.take_append, List.take_take, List.length_take, List.take_replicate]
+            have h1 : min c.payload.length m = m := by omega
+            have h2 : min m c.payload.length = m := by omega
+            have h3 : min (c.payload.length - m) z = c.payload.length - m := by omega
+            rw [h1, h2, h3]
+          have hd := hdet (by omega)
+          simp only [Nat.add_sub_cancel] at hd
+          simp [hov, htake, hd]
+      rw [readAux_bad B crc f off _ acc hpar]
+      exact readAux_drop_zeros B crc _ _ _ _ (by rw [hlen, hDlen]; omega)
+
+/-- `read_segs` with a zero tail after the cut -/
+theorem read_segs_zeros (hB : B ≤ 65542) : ∀ (ss : List Seg) (off n z fuel : Nat) (acc : Option Record),
+    WF B off ss → TornDetected crc n ss → ((encSegs crc ss).take n ++ List.replicate z 0).length < fuel →
+    readAux B crc fuel off ((encSegs crc ss).take n ++ List.replicate z 0) acc
+      = recoverChunks (wholeChunks n ss) acc := by
+  intro ss
+  induction ss with
+  | nil =>
+    intro off n z fuel acc _ _ _
+    simp only [encSegs, List.take_nil, List.nil_append, wholeChunks, recoverChunks]
+    exact readAux_zeros B crc _ _ _ _
+  | cons s ss ih =>
+    intro off n z fuel acc hwf hdet hf
+    cases fuel with
+    | zero => omega
+    | succ f =>
+    cases s with
+    | pad k =>
+      obtain ⟨hoff, hlt, hk, hwf'⟩ := hwf
+      simp only [encSegs, Seg.enc] at hf ⊢
+      by_cases hkn : k ≤ n
+      · have hD : List.take n (List.replicate k (0 : UInt8) ++ encSegs crc ss) ++ List.replicate z 0
+            = List.replicate k 0 ++ (List.take (n - k) (encSegs crc ss) ++ List.replicate z 0) := by
+          rw [List.take_append, List.take_replicate, List.length_replicate, Nat.min_eq_right hkn, List.append_assoc]
+        rw [hD] at hf ⊢
+        simp only [TornDetected, hkn, if_true] at hdet
+        have hlenD : (List.replicate k (0 : UInt8) ++ (List.take (n - k) (encSegs crc ss) ++ List.replicate z 0)).length
+            = k + (List.take (n - k) (encSegs crc ss) ++ List.replicate z (0 : UInt8)).length := by
+          rw [List.length_append, List.length_replicate]
+        rw [hlenD] at hf
+        have hav : min (B - off) (List.replicate k (0 : UInt8) ++
+            (List.take (n - k) (encSegs crc ss) ++ List.replicate z 0)).length < 7 := by
+          rw [hlenD]; omega
+        have hdrop : List.drop (B - off) (List.replicate k (0 : UInt8) ++
+            (List.take (n - k) (encSegs crc ss) ++ List.replicate z 0))
+            = List.take (n - k) (encSegs crc ss) ++ List.replicate z 0 := by
+          rw [← hk]; exact List.drop_left' (by simp)
+        rw [readAux_short B crc f off _ acc (parse_short crc _ _ hav), hdrop]
+        simp only [wholeChunks, hkn, if_true]
+        rw [← ih 0 (n - k) z f acc hwf' hdet (by omega)]
+        by_cases hT : (List.replicate k (0 : UInt8) ++
+            (List.take (n - k) (encSegs crc ss) ++ List.replicate z 0)).length ≤ B - off
+        · have : List.take (n - k) (encSegs crc ss) ++ List.replicate z (0 : UInt8) = [] := by
+            rw [hlenD] at hT
+            exact List.eq_nil_of_length_eq_zero (by omega)
+          rw [if_pos hT, this, readAux_nil]
+        · rw [if_neg hT]
+      · have hD : List.take n (List.replicate k (0 : UInt8) ++ encSegs crc ss) ++ List.replicate z 0
+            = List.replicate (n + z) 0 := by
+          rw [List.take_append_of_le_length (by simp; omega), List.take_replicate, Nat.min_eq_left (by omega),
+            List.replicate_append_replicate]
+        rw [hD, readAux_zeros]
+        simp only [wholeChunks, hkn, if_false, recoverChunks]
+    | chunk c =>
+      obtain ⟨hfit, hty, hwf'⟩ := hwf
+      have hp : c.payload.length < 65536 := by omega
+      simp only [encSegs, Seg.enc] at hf ⊢
+      by_cases hcn : 7 + c.payload.length ≤ n
+      · have hD : List.take n (encChunk crc c.ty c.payload ++ encSegs crc ss) ++ List.replicate z 0
+            = encChunk crc c.ty c.payload ++
+              (List.take (n - (7 + c.payload.length)) (encSegs crc ss) ++ List.replicate z 0) := by
+          rw [List.take_append, length_encChunk, List.take_of_length_le (by simp; omega), List.append_assoc]
+        rw [hD] at hf ⊢
+        simp only [TornDetected, hcn, if_true] at hdet
+        rw [List.length_append, length_encChunk] at hf
+        have hpar : parse crc (min (B - off) (encChunk crc c.ty c.payload ++
+              (List.take (n - (7 + c.payload.length)) (encSegs crc ss) ++ List.replicate z 0)).length)
+            (encChunk crc c.ty c.payload ++
+              (List.take (n - (7 + c.payload.length)) (encSegs crc ss) ++ List.replicate z 0))
+            = .ok c.ty c.payload :=
+          parse_chunk crc _ _ _ _ hty hp (by rw [List.length_append, length_encChunk]; omega)
+        have hdrop : List.drop (7 + c.payload.length) (encChunk crc c.ty c.payload ++
+              (List.take (n - (7 + c.payload.length)) (encSegs crc ss) ++ List.replicate z 0))
+            = List.take (n - (7 + c.payload.length)) (encSegs crc ss) ++ List.replicate z 0 :=
+          List.drop_left' (by simp)
+        rw [readAux_ok B crc f off _ acc _ _ hpar, hdrop]
+        simp only [wholeChunks, hcn, if_true, recoverChunks]
+        rw [ih _ _ _ f _ hwf' hdet (by omega)]
+      · have hD : List.take n (encChunk crc c.ty c.payload ++ encSegs crc ss)
+            = List.take n (encChunk crc c.ty c.payload) :=
+          List.take_append_of_le_length (by simp; omega)
+        rw [hD]
+        simp only [TornDetected, hcn, if_false] at hdet
+        simp only [wholeChunks, hcn, if_false, recoverChunks]
+        exact readAux_torn_chunk_zeros B crc hB f off n z acc c hfit hty (by omega) hdet
+
 end ZV.Journal
